@@ -386,7 +386,7 @@ func checkC10(c *Ctx) Meta {
 	c.Rule("C10-STOP", "an interrupted step is never taken for a completed one: on the plotting path the branch taken when the stop channel fires returns a provably non-nil error", 3)
 	c.Rule("C10-FRESH", "every window is computed into a freshly allocated (zeroed) cache: Update always reallocates, makeAvailableMemory always updates on success, every window write is preceded by it within its own round", 4)
 	c.Rule("C10-REMOVE", "map A is removed only after both passes returned nil (whose every normal exit has passed the final checkpoint and its Sync)", 2)
-	c.Rule("C10-SCAN", "a resumed or multi-window second pass computes what an uninterrupted one computes: every window considers every pair of map A (read from the start of map A, pair loop from 0)", 2)
+	c.Rule("C10-SCAN", "a resumed or multi-window second pass computes what an uninterrupted one computes: every window considers every pair of map A (read from the start of map A, pair loop from 0, full window loops, consistent offsets)", 5)
 	c.aliasFrom, c.aliasTo = "C07-SCAN", "C10-SCAN"
 	c.Rule("C07-OWN", "", 0)
 	checkC07ScanOwn(c)
@@ -605,7 +605,7 @@ func checkC07(c *Ctx) Meta {
 	c.Rule("C07-VERIFY", "GetProof returns a non-nil proof only on the success edge of poc.VerifyProof(proof, mdb.pubKeyHash, challenge, filter) applied to the very proof returned", 3)
 	c.Rule("C07-READ", "plotting passes consume reads completely: every io.Reader-shaped Read in the plotting functions is io.ReadFull/ReadAtLeast or has its byte count tested; its error reaches the return", 1)
 	c.Rule("C07-FRESH", "every window of both passes is computed into a freshly allocated (zeroed) cache, so slots the construction leaves empty read as empty", 4)
-	c.Rule("C07-SCAN", "every window of the second pass considers every pair of map A: the read position is the start of map A (no window-dependent term) and the pair loop runs from 0 to half, because a pair lands in a window by its z, not by its position", 2)
+	c.Rule("C07-SCAN", "every window of the second pass considers every pair of map A: the read position is the start of map A (no window-dependent term) and the pair loop runs from 0 to half, because a pair lands in a window by its z, not by its position; the window loops run to the full volume; each cache write is placed relative to the lower bound of its own range test", 5)
 	c.Rule("C07-OWN", "a proof handed out is owned by the caller: the byte slices HashMapB.Get / HashMapA.Get return derive from a buffer allocated in that call, never from storage held by the map object (which the next lookup would overwrite after VerifyProof has passed)", 2)
 	checkC07ScanOwn(c)
 	c.Rule("C07-FORWARD", "the keeper forwards proof and error of MassDB.GetProof unchanged and the miner drops entries whose Error is non-nil", 2)
@@ -1269,6 +1269,90 @@ func checkC07ScanOwn(c *Ctx) {
 					c.Bad("C07-SCAN", key, c.Pos(seek.Pos()), "the read position of a window depends on the window (or is not map A's offset): the pairs read no longer are all pairs of map A")
 				}
 			}
+		}
+	}
+	// windows cover the whole table: the window loop of each pass runs while start < volume (pass A) or
+	// start < volume/2 (pass B), not a shortened bound
+	for _, spec := range []struct{ fn, bound string }{{"(*MassDBV1).prePlotWork", "volume"}, {"(*MassDBV1).plotWork", "half"}} {
+		f := c.MustFn("C07-SCAN", "poc/engine/massdb/massdb.v1", spec.fn)
+		if f == nil {
+			continue
+		}
+		key := strings.NewReplacer("(", "", "*", "", ")", "").Replace(spec.fn) + ":windows-cover-the-whole-table"
+		// the outermost loop whose condition compares a phi with something derived from the volume field
+		var outer *ssa.If
+		allInstrs(f, func(in ssa.Instruction) {
+			iff, ok := in.(*ssa.If)
+			if !ok || !blockReentered(f, iff) {
+				return
+			}
+			cmp, isB := iff.Cond.(*ssa.BinOp)
+			if !isB || cmp.Op != token.LSS {
+				return
+			}
+			if _, isP := cmp.X.(*ssa.Phi); !isP || !backSlice(cmp.Y).hasField(pkgMassDBV1+".HashMap", "volume") {
+				return
+			}
+			if outer == nil || iff.Block().Dominates(outer.Block()) {
+				outer = iff
+			}
+		})
+		if outer == nil {
+			c.Bad("C07-SCAN", key, c.Pos(f.Pos()), "reason=anchor-missing: the window loop bounded by the table volume")
+			continue
+		}
+		bound := outer.Cond.(*ssa.BinOp).Y
+		shortened := ""
+		for x := range backSlice(bound).vals {
+			if bo, isB := x.(*ssa.BinOp); isB && (bo.Op == token.SUB || bo.Op == token.ADD) {
+				shortened = bo.Op.String()
+			}
+		}
+		if shortened != "" {
+			c.Bad("C07-SCAN", key, c.Pos(outer.Pos()), "the window loop's bound is the volume adjusted by a "+shortened+": a resumed pass (odd start) never runs its last one-record window and the last slot of the table stays empty although the construction fills it")
+		} else {
+			c.OK("C07-SCAN", key, c.Pos(outer.Pos()), "window loop runs while start < "+spec.bound+" (no adjustment)")
+		}
+	}
+	// both orderings of a pair are placed relative to the same window base: the offset of every cache
+	// write subtracts the very lower bound its range test compares with
+	if f := c.MustFn("C07-SCAN", "poc/engine/massdb/massdb.v1", "(*MassDBV1).plotWork"); f != nil {
+		key := "plotWork:offset-base-is-the-window-lower-bound"
+		n, bad := 0, ""
+		for _, w := range callsIn(f, "(*"+pkgMassDBV1+".MemCache).WriteAt") {
+			off := w.Call.Args[len(w.Call.Args)-1]
+			for x := range backSlice(off).vals {
+				sub, isB := x.(*ssa.BinOp)
+				if !isB || sub.Op != token.SUB {
+					continue
+				}
+				// a dominating range test  L <= V  (V = sub.X)
+				allInstrs(f, func(in ssa.Instruction) {
+					iff, ok := in.(*ssa.If)
+					if !ok {
+						return
+					}
+					cmp, isC := iff.Cond.(*ssa.BinOp)
+					if !isC || cmp.Op != token.LEQ || cmp.Y != sub.X {
+						return
+					}
+					if !iff.Block().Dominates(w.Block()) {
+						return
+					}
+					n++
+					if cmp.X != sub.Y {
+						bad = c.Pos(w.Pos()) + " "
+					}
+				})
+			}
+		}
+		switch {
+		case n < 4:
+			c.Bad("C07-SCAN", key, c.Pos(f.Pos()), fmt.Sprintf("reason=anchor-missing: expected the four cache writes of pass B behind their range tests, found %d", n))
+		case bad != "":
+			c.Bad("C07-SCAN", key, strings.TrimSpace(bad), "a cache write computes its offset from a base other than the lower bound of its own range test (single vs doubled window start): in every window but the first the entry lands in the wrong slot")
+		default:
+			c.OK("C07-SCAN", key, c.Pos(f.Pos()), fmt.Sprintf("%d write/test pairs, each offset = (z - lower bound of its test)", n))
 		}
 	}
 	for _, name := range []string{"(*HashMapB).Get", "(*HashMapA).Get"} {
